@@ -252,6 +252,10 @@ def derived_records(records, bts, boff):
         s = SSeq(n, f"recctx({getattr(records, 'name', 'records')})",
                  lambda k, _r=records, _b=bts, _o=boff: RecCtx(_r.item(k) if isinstance(_r, SSeq) else _r[k], _b, _o))
         s.item_desc = ("rec",)
+        try:
+            object.__setattr__(s, "base_records", records)
+        except AttributeError:
+            pass
         _derived[key] = (s, records)
     return _derived[key][0]
 
@@ -408,3 +412,116 @@ def registry():
             reg.by_id[id(fn)] = (fn, c)
     reg.records_models = {crc32c.crc32c: m_crc32c}
     return reg
+
+
+# ============================================================================== reader contracts
+from contracts.serial import ReaderContract  # noqa: E402
+
+
+class NbReaderContract(ReaderContract):
+    """read_signed_compact_string_as_bytes_nullable: M on NB(x); G: ValueError for a length < -1.
+    (It uses a plain buffer.read: a short value is NOT reported here - truncation is detected at
+    batch level by the checksum, see C18.)"""
+
+    def __init__(self):
+        super().__init__("read_signed_compact_string_as_bytes_nullable", ("nb",), (ValueError,))
+
+
+class HeaderReaderContract(ReaderContract):
+    def __init__(self):
+        super().__init__("read_header", ("rhdr",), (ValueError,))
+
+
+class ReadRecordContract:
+    """read_record(buffer, base_timestamp, base_offset): on Rec(r) relative to the bases returns r
+    (offset = base + delta, timestamp = base_ts + delta milliseconds) and consumes exactly Rec(r).
+    ASSUMED here (the body computes through floats); validated by the bounded run, which reports
+    the known finding that the millisecond part of the timestamp is dropped."""
+    name = "read_record"
+    is_reader = True
+
+    def apply(self, interp, args, kwargs):
+        src, bts, boff = _bind(args, kwargs, ("buffer", "base_timestamp", "base_offset"))
+        ctx = interp.ctx
+        for _ in range(4):
+            head = src.head()
+            if isinstance(head, Enc) and head.codec == ("rec",):
+                rc = head.args[0]
+                ctx.oblige("read_record/bases-match", z3.And(zint(rc.base_ts) == zint(bts), zint(rc.base_offset) == zint(boff)))
+                src.pop_head()
+                return rc.record
+            if isinstance(head, Enc):
+                src.unfold_head()
+                continue
+            break
+        from kvc.core import Mismatch
+        raise Mismatch(f"read_record applied to {head!r}")
+
+
+def reader_registry():
+    import kio.records.readers as RR
+    reg = registry()
+    for name, c in (("read_signed_compact_string_as_bytes_nullable", NbReaderContract()), ("read_header", HeaderReaderContract()),
+                    ("read_record", ReadRecordContract())):
+        fn = getattr(RR, name, None)
+        if fn is None:
+            reg.missing.append(f"kio.records.readers.{name}")
+        else:
+            reg.by_id[id(fn)] = (fn, c)
+    return reg
+
+
+def batch_loop(interp, st, rng, fr):
+    """`for _ in range(num_records): record = read_record(...); <check>; records.append(record)`
+    over an encoded run of records: induction with the generic iteration as step - the body reads
+    exactly record k and appends exactly that record; afterwards the list holds the whole sequence."""
+    from kvc import loops
+    from kvc.interp import BreakEx, ContinueEx, Frame
+    from kvc.core import Mismatch
+    ctx = interp.ctx
+    srcs = [s_ for s_ in loops._sources(fr) if isinstance(s_[1].head(), Enc) and s_[1].head().codec[0] == "run"]
+    if len(srcs) != 1:
+        raise Undecided("record loop: cannot identify the source holding the encoded records")
+    src = srcs[0][1]
+    n = z3.simplify(zint(rng.hi) - zint(rng.lo))
+    if not ctx.decide(n > 0):
+        interp.block(st.orelse, fr)
+        return
+    for _ in range(3):
+        head = src.head()
+        if isinstance(head, Enc) and head.codec[0] == "run":
+            break
+        if isinstance(head, Enc):
+            src.unfold_head()
+            continue
+        raise Mismatch(f"record loop applied to {head!r}")
+    seq = head.args[0]
+    if not ctx.entails(n == seq.n):
+        raise Mismatch("record count differs from the number of encoded records")
+    lists = [(name, v) for name, v in fr.env.items() if isinstance(v, list) and id(v) in interp.fresh_ids]
+    if len(lists) != 1 or lists[0][1]:
+        raise Undecided("record loop: expected exactly one empty accumulator list")
+    lname = lists[0][0]
+    k = ctx.int_const(ctx.fresh("k"), 0)
+    ctx.assume(k < n)
+    item = seq.item(SInt(k))
+    tailc = ctx.bytes_const(ctx.fresh("after_record"))
+    temp = LocalBytesIO(ctx, [Enc(head.codec[1], item), Raw(tailc)])
+    acc = []
+    interp.fresh_ids.add(id(acc)); interp._keep(acc)
+    sub = Frame(fr.fn, {nm: (temp if v is src else (acc if nm == lname else v)) for nm, v in fr.env.items()})
+    sub.globals = fr.globals
+    interp.assign(st.target, SInt(k), sub)
+    try:
+        interp.block(st.body, sub)
+    except (BreakEx, ContinueEx):
+        raise Undecided("break/continue in the record loop")
+    want = getattr(item, "record", item)
+    from kvc.core import sym_eq
+    ctx.oblige("record-loop/step-appends-exactly-the-record", z3.BoolVal(len(acc) == 1 and acc[0] is want)
+               if len(acc) != 1 or acc[0] is want else tobool(sym_eq(acc[0], want, ctx)))
+    ctx.oblige("record-loop/step-consumes-exactly-the-record", tobool(equalise(ctx, temp.rest(), [Raw(tailc)])))
+    src.pop_head()
+    base = getattr(seq, "base_records", None)
+    fr.env[lname] = base if base is not None else seq
+    interp.block(st.orelse, fr)
